@@ -23,7 +23,7 @@ ASSUMPTIONS = c01.ASSUMPTIONS
 MONITORS = ["model_equality", "roundtrip", "restringify", "loads_detects_ssc", "tokenizer_structure", "chart_from_str", "eq_when_notes_last"]
 REQUIRED = ["empty_notes", "interned_notes", "same_object_as_notes", "notes2", "notes_not_last", "chart_multi_value",
             "key_only_in_chart", "value_equal_to_notes", "notes_backslash_without_other_meta", "corpus_start",
-            "notes_moved_to_other_key_after_str"]
+            "notes_moved_to_other_key_after_str", "key_starting_with_NOTES_before_the_notes"]
 
 
 def anchors():
@@ -63,6 +63,8 @@ def features(ctx, m, s, case):
             ctx.feat("chart_multi_value")
         if any(v is None for v in c.d.values()):
             ctx.feat("key_only_in_chart")
+        if any(k.startswith("NOTES") and k != nk and keys.index(k) < keys.index(nk) for k in keys):
+            ctx.feat("key_starting_with_NOTES_before_the_notes")
         if any(k != nk and v == notes for k, v in c.d.items()):
             ctx.feat("value_equal_to_notes")
         real_notes = rc.get(nk)
